@@ -16,6 +16,7 @@
 package hessian
 
 import (
+	"math"
 	"errors"
 	"fmt"
 	"reflect"
@@ -490,6 +491,9 @@ func convertValueDepth(v reflect.Value, typ reflect.Type, depth int, memo map[co
 		return PackPtr(elem), nil
 	case IntKind(kind) && (IntKind(v.Kind()) || UintKind(v.Kind())):
 		cv := reflect.New(typ).Elem()
+		if !fitsInteger(cv, v) {
+			return _zeroValue, newCodecError("convertValue", "number %v does not fit %v", v, typ)
+		}
 		if IntKind(v.Kind()) {
 			cv.SetInt(v.Int())
 		} else {
@@ -498,6 +502,9 @@ func convertValueDepth(v reflect.Value, typ reflect.Type, depth int, memo map[co
 		return cv, nil
 	case UintKind(kind) && (IntKind(v.Kind()) || UintKind(v.Kind())):
 		cv := reflect.New(typ).Elem()
+		if !fitsInteger(cv, v) {
+			return _zeroValue, newCodecError("convertValue", "number %v does not fit %v", v, typ)
+		}
 		if IntKind(v.Kind()) {
 			cv.SetUint(uint64(v.Int()))
 		} else {
@@ -823,9 +830,15 @@ func SetValue(dest, v reflect.Value) {
 		dest.SetFloat(EnsureFloat64(v.Interface()))
 		return
 	case reflect.Int, reflect.Int8, reflect.Int16, reflect.Int32, reflect.Int64:
+		if !fitsInteger(dest, v) {
+			panic(fmt.Errorf("number %v does not fit %v", v, dest.Type()))
+		}
 		dest.SetInt(EnsureInt64(v.Interface()))
 		return
 	case reflect.Uint, reflect.Uint8, reflect.Uint16, reflect.Uint32, reflect.Uint64:
+		if !fitsInteger(dest, v) {
+			panic(fmt.Errorf("number %v does not fit %v", v, dest.Type()))
+		}
 		dest.SetUint(EnsureUint64(v.Interface()))
 		return
 	}
@@ -838,6 +851,27 @@ func SetValue(dest, v reflect.Value) {
 	}
 
 	dest.Set(v)
+}
+
+// fitsInteger check whether the integer v can be stored in dest (of an integer kind) unchanged. A number read from
+// the wire that does not fit the Go destination (the peer declares the field or element wider) is refused by the
+// callers, not truncated. One wrap is part of the format: a uint64 beyond MaxInt64 travels as a negative long, and
+// the unsigned 64-bit kinds take a negative number back as that value.
+func fitsInteger(dest, v reflect.Value) bool {
+	switch {
+	case IntKind(dest.Kind()) && IntKind(v.Kind()):
+		return !dest.OverflowInt(v.Int())
+	case IntKind(dest.Kind()) && UintKind(v.Kind()):
+		return v.Uint() <= math.MaxInt64 && !dest.OverflowInt(int64(v.Uint()))
+	case UintKind(dest.Kind()) && UintKind(v.Kind()):
+		return !dest.OverflowUint(v.Uint())
+	case UintKind(dest.Kind()) && IntKind(v.Kind()):
+		if dest.Type().Bits() == 64 {
+			return true
+		}
+		return v.Int() >= 0 && !dest.OverflowUint(uint64(v.Int()))
+	}
+	return true
 }
 
 func AddrEqual(x, y interface{}) bool {
